@@ -525,6 +525,16 @@ def resolvedFull : Resolved := ⟨some (journal []), [(b, fileB), (c, fileC)], [
 
 end Cex
 
+/-- The hypotheses of `amount_hover_exact` and `current_file_counted_partial` are satisfiable:
+    a document with one posting `x:y  5 USD` on line 2, cursor on the amount / on the account. -/
+example : ∃ rng a c, findElement (Cex.journal [Cex.tx 1 [Cex.posting Cex.xy 2 (some 5)]]).transactions ⟨1, 8⟩
+    = some (.amount rng a c) := ⟨_, _, _, rfl⟩
+example : ∃ rng acc, findElement (Cex.journal [Cex.tx 1 [Cex.posting Cex.xy 2 (some 5)]]).transactions ⟨1, 3⟩
+    = some (.account rng acc) ∧
+    ∀ tx ∈ (Cex.journal [Cex.tx 1 [Cex.posting Cex.xy 2 (some 5)]]).transactions,
+      tx ∈ hoverTransactions none none (Cex.journal [Cex.tx 1 [Cex.posting Cex.xy 2 (some 5)]]) :=
+  ⟨_, _, rfl, fun _ h => h⟩
+
 /-- The hypotheses of `payee_found_partial` are satisfiable (`2024-01-15 Shop`, cursor on `h`). -/
 example : ∃ tx : Transaction, ∃ p : LspPos, payeeOrDescription tx ≠ [] ∧
     positionInRange p tx.date.range = false ∧ p.line + 1 = tx.date.range.start.line ∧
